@@ -3,7 +3,7 @@
 (* A record carries the input as characters and what Scanner.scan did: the tokens (type, text,  *)
 (* line, column), or the ScannerException position, or that the step budget was exhausted.      *)
 EXTENDS ScannerData, TLC, Json, IOUtils, Naturals, Sequences, FiniteSets
-S == INSTANCE Scanner WITH TableMnemonics <- MnemonicSeqs, NakedMnemonics <- NakedSeqs, Keywords <- KeywordSeqs
+S == INSTANCE Scanner WITH TableMnemonics <- MnemonicSeqs, NakedMnemonics <- NakedSeqs, Keywords <- KeywordSeqs, SizeEatsNewline <- FALSE
 Trace == ndJsonDeserialize(IOEnv.TRACE_FILE)
 VARIABLE i
 Init == i = 0
